@@ -283,7 +283,8 @@ class MinFlowDecomp(pathmodel.AbstractPathModelDAG): # Note that we inherit from
 
     def _solve_with_given_weights(self) -> bool:
 
-        all_weights = set({self.G.edges[e][self.flow_attr] for e in self.G.edges() if self.flow_attr in self.G.edges[e]})
+        # Only the values that have to be explained are candidate weights (an ignored edge can carry any value)
+        all_weights = set({self.G.edges[e][self.flow_attr] for e in self.G.edges() if self.flow_attr in self.G.edges[e] and e not in self.edges_to_ignore})
         all_weights_list = list(all_weights)
         
         # We call this so that the generating set is computed and stored in the class, if this optimization is activated
